@@ -14,6 +14,13 @@ Hypothesis draws - and every list it shrinks to - is a valid program.
     ["add",  i, j]                                v = vars[i] + vars[j]
     ["mul",  n, i]                                v = n * vars[i]
     ["iadd", i, j]                                vars[i] += vars[j]
+    ["again", k]                                  run the k-th earlier constructor again
+    ["on", "private", <constructor op>]           the constructor with the atoms of the private table
+                                                  (formula(str, table=T), T's atoms in dict/sequence)
+    ["chtable", i, "private"|"public"]            vars[i].change_table(that table)   (in place)
+
+Every variable lives on one table; the second operand of + and += is chosen (by its index) among the
+variables living on the table of the first.
 
     nested = {"t": 0|1, "p": [[count, spec | nested], ...]}    ("t": build a tuple instead of a list)
 
@@ -33,6 +40,7 @@ MAX_LEAVES = 250          # structure leaves per variable (f += f doubles)
 MAG_HI = Fraction(10) ** 30
 MAG_LO = Fraction(1, 10 ** 30)
 
+CUSTOM_MASS = {"H": 2.5, "C": 13.5, "O": 17.25, "Fe": 60.125, "Na": 20.0}
 NAMES = ["water", "heavy water", "permalloy", "x", "Fe2O3", "10%", "a'b", "(", "0"]
 
 
@@ -45,6 +53,15 @@ def env():
         _STATE["formula"] = periodictable.formula
         _STATE["emass"] = periodictable.constants.electron_mass
         _STATE["avogadro"] = periodictable.constants.avogadro_number
+        # a private table with its own atoms; a few masses are changed so that an atom taken from the
+        # wrong table also shows in masses
+        from periodictable import core, mass, density as density_module
+        T = core.PeriodicTable("fops-private")
+        mass.init(T)
+        density_module.init(T)
+        for sym, m in CUSTOM_MASS.items():
+            getattr(T, sym)._mass = m
+        _STATE["tables"] = {"public": periodictable.elements, "private": T}
     return _STATE
 
 
@@ -83,7 +100,15 @@ def nested(pool, depth=2, count=None):
                      ).map(lambda t: {"t": t[0], "p": t[1]})
 
 
-def constructor(pool, count=None, tree=None):
+def constructor(pool, count=None, tree=None, tables=False):
+    base = _constructor(pool, count, tree)
+    if not tables:
+        return base
+    # (one_of drops repeated branches, so the share is set by a drawn flag: 1 constructor in 5 is private)
+    return st.tuples(st.integers(0, 4), base).map(lambda t: ["on", "private", t[1]] if t[0] == 0 else t[1])
+
+
+def _constructor(pool, count=None, tree=None):
     cnt = count if count is not None else number()
     tree = tree if tree is not None else fa.compound(pool, depth=2, max_groups=3, max_atoms=3)
     return st.one_of(
@@ -95,7 +120,25 @@ def constructor(pool, count=None, tree=None):
     )
 
 
-def operator(mult=None):
+def operator(mult=None, tables=False):
+    if not tables:
+        return _operator(mult)
+    # weighted choice (one_of drops repeated branches): a drawn kind selects the strategy
+    idx = st.integers(0, 7)
+    n = mult if mult is not None else number(zero=True)
+    alt = {
+        "chtable": st.tuples(st.just("chtable"), idx, st.sampled_from(["private", "private", "public"])).map(list),
+        "again": st.tuples(st.just("again"), idx).map(list),
+        "copy": st.tuples(st.just("copy"), idx, name(), density()).map(list),
+        "add": st.tuples(st.just("add"), idx, idx).map(list),
+        "mul": st.tuples(st.just("mul"), n, idx).map(list),
+        "iadd": st.tuples(st.just("iadd"), idx, idx).map(list),
+    }
+    kinds = ["chtable"] * 2 + ["again"] + ["copy"] * 2 + ["add"] * 3 + ["mul"] * 4 + ["iadd"] * 4
+    return st.sampled_from(kinds).flatmap(lambda k: alt[k])
+
+
+def _operator(mult=None):
     idx = st.integers(0, 7)
     n = mult if mult is not None else number(zero=True)
     return st.one_of(
@@ -114,9 +157,9 @@ def operator(mult=None):
     )
 
 
-def history(pool, max_steps=30, count=None, mult=None, tree=None):
-    c = constructor(pool, count, tree)
-    o = operator(mult)
+def history(pool, max_steps=30, count=None, mult=None, tree=None, tables=False):
+    c = constructor(pool, count, tree, tables)
+    o = operator(mult, tables)
     step = st.one_of(o, o, o, c)
     rest = max_steps - 3
     tail = st.one_of(st.lists(step, min_size=0, max_size=min(6, rest)),
@@ -187,9 +230,10 @@ def mag_ok(comp):
 
 
 class Var(object):
-    __slots__ = ("f", "comp", "operand", "origin")
+    __slots__ = ("f", "comp", "operand", "origin", "table")
 
-    def __init__(self, f, comp, origin):
+    def __init__(self, f, comp, origin, table="public"):
+        self.table = table        # the table whose atoms the formula holds
         self.f = f
         self.comp = comp
         self.operand = False      # was an operand of an earlier + or *
@@ -205,33 +249,45 @@ def interpret(ops, observer=None, before=None, mag=(MAG_LO, MAG_HI)):
     """Run *ops*.  before(step_index, op, vars) is called before an operation
     that will be executed, observer(step, vars) after it.  Returns (vars, flags, skipped)."""
     E = env()
-    pool, table, formula = E["pool"], E["table"], E["formula"]
+    pool, formula = E["pool"], E["formula"]
     vars_ = []
     flags = {"mul-multi": False, "iadd-after-operand": False, "kinds": [], "classes": set()}
     skipped = 0
     ctor_ops = []
     for index, op in enumerate(ops):
         kind = op[0]
+        which = "public"
         if kind == "again":
             if not ctor_ops:
                 skipped += 1
                 continue
-            op = ctor_ops[op[1] % len(ctor_ops)]
+            which, op = ctor_ops[op[1] % len(ctor_ops)]
             kind = op[0]
             flags["kinds"].append("again")
-        elif kind in ("str", "atom", "dict", "seq"):
-            ctor_ops.append(op)
+        else:
+            if kind == "on":
+                which, op = op[1], op[2]
+                kind = op[0]
+                flags["kinds"].append("on-private-table")
+            if kind in ("str", "atom", "dict", "seq"):
+                ctor_ops.append((which, op))
+        table = E["tables"][which]
         st_ = Step()
         st_.index, st_.op, st_.kind = index, op, kind
         st_.new = st_.changed = None
         st_.operands, st_.inputs, st_.flags = [], None, flags
-        if kind in ("copy", "add", "mul", "iadd") and not vars_:
+        if kind in ("copy", "add", "mul", "iadd", "chtable") and not vars_:
             skipped += 1
             continue
         n = len(vars_)
         # -- decide whether the operation is within the size/magnitude budget
         if kind == "add" or kind == "iadd":
-            a, b = vars_[op[1] % n], vars_[op[2] % n]
+            # the second operand is chosen among the variables living on the table of the first
+            ia = op[1] % n
+            a = vars_[ia]
+            same = [k for k in range(n) if vars_[k].table == a.table]
+            ib = same[op[2] % len(same)] if len(same) < n else op[2] % n
+            b = vars_[ib]
             if leaves(a.f.structure) + leaves(b.f.structure) > MAX_LEAVES:
                 skipped += 1
                 continue
@@ -245,13 +301,14 @@ def interpret(ops, observer=None, before=None, mag=(MAG_LO, MAG_HI)):
             before(index, op, vars_)
         if kind == "str":
             s = fa.render(op[1])
-            f = formula(s, name=op[2]) if op[2] is not None else formula(s)
-            v = Var(f, fa.composition(pool, op[1]), "str")
+            kw = {} if which == "public" else {"table": table}
+            f = formula(s, name=op[2], **kw) if op[2] is not None else formula(s, **kw)
+            v = Var(f, fa.composition(pool, op[1]), "str", which)
             for a_, _ in fa.atoms_of(op[1]["g"]):
                 flags["classes"].add(spec_class(a_[1]))
         elif kind == "atom":
             f = formula(resolve(table, op[1]))
-            v = Var(f, {spec_key(pool, op[1]): Fraction(1)}, "atom")
+            v = Var(f, {spec_key(pool, op[1]): Fraction(1)}, "atom", which)
             flags["classes"].add(spec_class(op[1]))
         elif kind == "dict":
             d, comp = {}, {}
@@ -270,13 +327,13 @@ def interpret(ops, observer=None, before=None, mag=(MAG_LO, MAG_HI)):
             keep = dict(d)
             f = formula(d, **kw)
             st_.inputs = ("dict", d, keep)
-            v = Var(f, comp, "dict")
+            v = Var(f, comp, "dict", which)
         elif kind == "seq":
             seq = nested_build(table, op[1])
             keep = nested_build(table, op[1])
             f = formula(seq, name=op[2]) if op[2] is not None else formula(seq)
             st_.inputs = ("seq", seq, keep)
-            v = Var(f, nested_model(pool, op[1]), "seq")
+            v = Var(f, nested_model(pool, op[1]), "seq", which)
             for s_ in nested_specs(op[1]):
                 flags["classes"].add(spec_class(s_))
         elif kind == "copy":
@@ -288,13 +345,12 @@ def interpret(ops, observer=None, before=None, mag=(MAG_LO, MAG_HI)):
                 kw["density"] = op[3]
             f = formula(a.f, **kw)
             st_.operands = [op[1] % n]
-            v = Var(f, dict(a.comp), "copy")
+            v = Var(f, dict(a.comp), "copy", a.table)
         elif kind == "add":
-            a, b = vars_[op[1] % n], vars_[op[2] % n]
             f = a.f + b.f
-            st_.operands = [op[1] % n, op[2] % n]
+            st_.operands = [ia, ib]
             a.operand = b.operand = True
-            v = Var(f, madd(a.comp, b.comp), "add")
+            v = Var(f, madd(a.comp, b.comp), "add", a.table)
         elif kind == "mul":
             a = vars_[op[2] % n]
             if op[1] not in (0, 1) and len(a.f.structure) > 1:
@@ -302,10 +358,9 @@ def interpret(ops, observer=None, before=None, mag=(MAG_LO, MAG_HI)):
             f = op[1] * a.f
             st_.operands = [op[2] % n]
             a.operand = True
-            v = Var(f, mscale(a.comp, Fraction(op[1])), "mul")
+            v = Var(f, mscale(a.comp, Fraction(op[1])), "mul", a.table)
         elif kind == "iadd":
-            i, j = op[1] % n, op[2] % n
-            a, b = vars_[i], vars_[j]
+            i, j = ia, ib
             if a.operand:
                 flags["iadd-after-operand"] = True
             obj = a.f
@@ -316,6 +371,16 @@ def interpret(ops, observer=None, before=None, mag=(MAG_LO, MAG_HI)):
             a.comp = newcomp
             st_.inputs = ("iadd", obj, a.f)
             a.f = obj
+            v = None
+        elif kind == "chtable":
+            i = op[1] % n
+            a = vars_[i]
+            obj = a.f.change_table(E["tables"][op[2]])
+            st_.changed = i
+            st_.inputs = ("chtable", obj, a.f)
+            a.f = obj if obj is not None else a.f
+            a.table = op[2]
+            a.origin = "chtable"
             v = None
         else:
             raise ValueError("unknown op %r" % (op,))
